@@ -210,3 +210,67 @@ pub fn validate(toks: Vec<Tok>) -> Vec<Tok> {
     let _ = std::fs::remove_file(&cp);
     vec![vec![c1, c2]]
 }
+
+/// `TlsHostsSettings` validation through the builder and through the hosts-file text + `Core::new`.
+/// in : [bad_group (0 none, 1 main, 2 reverse proxy, 3 ping, 4 speedtest), bad_index] main rp ping speed
+///      (names: flat [len, bytes...]*; the host at bad_group/bad_index points at a file that holds no certificate)
+/// out: [builder refused, Core::new refused]
+pub fn hosts(toks: Vec<Tok>) -> Vec<Tok> {
+    use trusttunnel::settings::{TlsHostInfo, TlsHostsSettings};
+    let names = |t: &Tok| -> Vec<String> {
+        let b = bytes(t);
+        let mut out = vec![];
+        let mut i = 0;
+        while i < b.len() {
+            let l = b[i] as usize;
+            out.push(String::from_utf8_lossy(&b[i + 1..i + 1 + l]).to_string());
+            i += 1 + l;
+        }
+        out
+    };
+    let (bg, bi) = (toks[0][0], toks[0][1] as usize);
+    let good = crate::ctxutil::cert_path();
+    let bad = good.replace("test_cert_key.pem", "not_a_cert.txt");
+    let groups: Vec<Vec<String>> = (1..5).map(|i| names(&toks[i])).collect();
+    let path = |g: usize, k: usize| if bg as usize == g + 1 && bi == k { bad.clone() } else { good.clone() };
+    let infos = |g: usize| -> Vec<TlsHostInfo> {
+        groups[g]
+            .iter()
+            .enumerate()
+            .map(|(k, n)| TlsHostInfo {
+                hostname: n.clone(),
+                cert_chain_path: path(g, k),
+                private_key_path: path(g, k),
+                allowed_sni: vec![],
+            })
+            .collect()
+    };
+    let via_builder = TlsHostsSettings::builder()
+        .main_hosts(infos(0))
+        .reverse_proxy_hosts(infos(1))
+        .ping_hosts(infos(2))
+        .speedtest_hosts(infos(3))
+        .build()
+        .is_err();
+    // the hosts file as the endpoint binary reads it: no validation at parse time, Core::new validates
+    let mut text = String::new();
+    for (g, key) in ["main_hosts", "reverse_proxy_hosts", "ping_hosts", "speedtest_hosts"].iter().enumerate() {
+        for (k, n) in groups[g].iter().enumerate() {
+            text += &format!(
+                "[[{}]]\nhostname = {:?}\ncert_chain_path = {:?}\nprivate_key_path = {:?}\n",
+                key,
+                n,
+                path(g, k),
+                path(g, k)
+            );
+        }
+    }
+    let via_core = match toml::from_str::<TlsHostsSettings>(&text) {
+        Err(_) => true,
+        Ok(h) => {
+            let st = crate::engines::c05::settings(true, true, false, true);
+            trusttunnel::verif::ctx::make(st, h, None).is_err()
+        }
+    };
+    vec![vec![via_builder as u128, via_core as u128]]
+}
